@@ -25,6 +25,12 @@ pub enum Creator {
   IntervalSampleInterval,
   IntervalPublish,
   IntervalDelay,
+  /// interval shared through ref_count() / replay()
+  IntervalRefCount,
+  IntervalReplay,
+  /// ... with a synchronous first item in front (start_with): a take(1) subscriber leaves while it is connecting
+  StartWithIntervalRefCount,
+  StartWithIntervalReplay,
 }
 
 #[derive(Clone, Copy, Debug, PartialEq)]
@@ -46,8 +52,8 @@ fn applicable(c: Creator, e: Ending) -> bool {
   use Ending::*;
   match (c, e) {
     // interval/timer never fail; retry needs a failing attempt
-    (Interval | Timer | IntervalFlatMapObserveOn | IntervalSampleInterval | IntervalPublish | IntervalDelay, SourceError | Retry2) => false,
-    (Interval | IntervalFlatMapObserveOn | IntervalSampleInterval | IntervalPublish | IntervalDelay, SourceComplete) => false,
+    (Interval | Timer | IntervalFlatMapObserveOn | IntervalSampleInterval | IntervalPublish | IntervalDelay | IntervalRefCount | IntervalReplay | StartWithIntervalRefCount | StartWithIntervalReplay, SourceError | Retry2) => false,
+    (Interval | IntervalFlatMapObserveOn | IntervalSampleInterval | IntervalPublish | IntervalDelay | IntervalRefCount | IntervalReplay | StartWithIntervalRefCount | StartWithIntervalReplay, SourceComplete) => false,
     (IntervalPublish, Take1 | First | TakeUntilTimer | AmbNever) => false,
     _ => true,
   }
@@ -100,6 +106,14 @@ fn create(c: Creator, causes: &Causes) -> Built {
       let p = observables::interval(ms(10), nt()).map(|x| x as i64).publish();
       let p2 = p.clone();
       Built { o: p.observable(), hot: None, connect: Some(Box::new(move || p2.connect())) }
+    }
+    Creator::IntervalRefCount => Built { o: observables::interval(ms(10), nt()).map(|x| x as i64).ref_count().observable(), hot: None, connect: None },
+    Creator::IntervalReplay => Built { o: observables::interval(ms(10), nt()).map(|x| x as i64).replay().observable(), hot: None, connect: None },
+    Creator::StartWithIntervalRefCount => {
+      Built { o: observables::interval(ms(10), nt()).map(|x| x as i64).start_with([100i64].into_iter()).ref_count().observable(), hot: None, connect: None }
+    }
+    Creator::StartWithIntervalReplay => {
+      Built { o: observables::interval(ms(10), nt()).map(|x| x as i64).start_with([100i64].into_iter()).replay().observable(), hot: None, connect: None }
     }
     Creator::IntervalDelay => Built { o: observables::interval(ms(10), nt()).map(|x| x as i64).delay(ms(5)), hot: None, connect: None },
   }
@@ -200,7 +214,7 @@ pub fn exit_scn(c: Creator, e: Ending, twice: bool, q: Option<u32>, t: Option<u3
 pub fn c15_scenarios() -> Vec<Scn> {
   use Creator::*;
   use Ending::*;
-  let creators = [Interval, Timer, HotObserveOn, ColdSubscribeOn, ColdObserveOn, HotDebounce, HotTimeout, IntervalFlatMapObserveOn, ColdObserveOnTwice, IntervalSampleInterval, IntervalPublish, IntervalDelay];
+  let creators = [Interval, Timer, HotObserveOn, ColdSubscribeOn, ColdObserveOn, HotDebounce, HotTimeout, IntervalFlatMapObserveOn, ColdObserveOnTwice, IntervalSampleInterval, IntervalPublish, IntervalDelay, IntervalRefCount, IntervalReplay, StartWithIntervalRefCount, StartWithIntervalReplay];
   let endings = [SourceComplete, SourceError, Unsubscribe, Take1, First, TakeUntilTimer, AmbNever, Retry2];
   let mut v = vec![];
   for c in creators {
